@@ -338,16 +338,18 @@ func RunWorker(t *testing.T) {
 		}
 		fmt.Fprintf(jf, "BEGIN %d %s\n", idx, cs.ID)
 		c := &Ctx{T: t, Env: env, Case: cs.ID, Index: idx, acc: acc}
+		t0 := time.Now()
 		cs.Run(c)
+		ms := time.Since(t0).Milliseconds()
 		run++
 		if c.Failed() {
 			acc.mu.Lock()
 			acc.viols++
 			acc.mu.Unlock()
 			c.writeViolation()
-			fmt.Fprintf(jf, "END %d viol\n", idx)
+			fmt.Fprintf(jf, "END %d viol %dms\n", idx, ms)
 		} else {
-			fmt.Fprintf(jf, "END %d ok\n", idx)
+			fmt.Fprintf(jf, "END %d ok %dms\n", idx, ms)
 		}
 		return true
 	})
